@@ -824,6 +824,8 @@ class TexExpr(object):
         TexExpr('textbf', ['asdf', 'world', 'hello'])
         """
         self._assert_supports_contents()
+        if i < 0:  # resolve once, as ``list.insert`` does: pieces stay together
+            i = max(len(self._contents) + i, 0)
         for j, expr in enumerate(exprs):
             if isinstance(expr, TexNode):  # store the expression, as parsing does
                 expr = expr.expr
